@@ -92,6 +92,37 @@ func runC09(c *kernel.Ctx) {
 	world.Settle()
 	canary.Recv()
 	sw := b.Svc.VerifSwarm()
+	if t.Chance(1, 2) {
+		// another broker has a subscriber on the canary's channel: the subscription index then also holds a
+		// subscriber that is not a client connection, and everything published there is forwarded too
+		uv := func(b []byte, x uint64) []byte {
+			for x >= 0x80 {
+				b = append(b, byte(x)|0x80)
+				x >>= 7
+			}
+			return append(b, byte(x))
+		}
+		k := []byte{0, 0, 0, 0, 0, 0, 0, 2, 0, 0, 0, 0, 0, 0, 0, 77}
+		for _, wd := range model.Ssid(lic.Contract, []string{"canary"}) {
+			k = append(k, byte(wd>>24), byte(wd>>16), byte(wd>>8), byte(wd))
+		}
+		v := make([]byte, 16)
+		stamp := uint64(time.Now().UnixNano())
+		for i := 0; i < 8; i++ {
+			v[i] = byte(stamp >> (56 - 8*i))
+		}
+		v = append(v, 0)                   // user: empty
+		v = append(uv(v, 7), "canary/"...) // channel
+		enc := []byte{1, 0}                // one set, of subscriptions
+		enc = uv(enc, 1)
+		enc = append(uv(enc, uint64(len(k))), k...)
+		enc = append(uv(enc, uint64(len(v))), v...)
+		if _, err := sw.OnGossip(snappy.Encode(nil, enc)); err != nil {
+			c.Harnessf("remote subscription not merged: %v", err)
+		}
+		world.Settle()
+		c.Probe("remote-subscriber-on-the-canary-channel")
+	}
 	// valid payloads to mutate. They are fixed byte strings (captured once from
 	// State.Encode / Frame.Encode): encoding them afresh would follow Go map
 	// iteration and per-process id nonces, and a run would not replay.
@@ -309,7 +340,11 @@ func runC09(c *kernel.Ctx) {
 		case 13: // degenerate but well-formed requests
 			a := attacker()
 			var buf []byte
-			switch t.Choose(5) {
+			switch t.Choose(7) {
+			case 5: // options a client may legally set, on the channel everybody listens to
+				buf = mqttc.Encode(a.Publish(key+"/canary/?me=0", []byte("m0"), false, false))
+			case 6:
+				buf = mqttc.Encode(a.Publish(key+"/canary/?me=0&ttl=5&last=3", []byte("m1"), t.Chance(1, 2), t.Chance(1, 2)))
 			case 0:
 				buf = []byte{0x82, 0x02, 0x00, 0x01} // SUBSCRIBE without any topic
 			case 1:
